@@ -257,7 +257,15 @@ def _param_field(ctx, cname, param):
     return None
 
 
+def r11_3(ctx, rc):
+    """The sanitiser, used as a copy point by R11.1/R11.2, returns fresh
+    structure (R18.1)."""
+    from .c18 import r18_1
+    r18_1(ctx, rc)
+
+
 RULES = [
     ('R11.1', 'no record-owned value escapes without a deep copy', r11_1),
     ('R11.2', 'no user-owned value is captured without sanitising', r11_2),
+    ('R11.3', 'the sanitiser (copy point) returns fresh structure', r11_3),
 ]
